@@ -203,7 +203,10 @@ def run_options(case, r):
         tagc = {"shape": shape, "vs": vsk, "mass": mk, "method": method, "l1": l1, "mobility": mob, "form": form, "aa": aa, "weight": weight}
         # the same solver object is used for a second, different pair afterwards (the reversed
         # transport): both results have to satisfy every invariant
-        res = Wh.run_solver(mname(method), shape, vs, m1, m2, o, weight=weight, then=(m2, m1))
+        # (the reversed transport of TWICE the mass: |flux| of the plain reversed pair would repeat the
+        # first run's transport density and hide a result of the first run that the second overwrites)
+        n1, n2 = 2.0 * m2, 2.0 * m1
+        res = Wh.run_solver(mname(method), shape, vs, m1, m2, o, weight=weight, then=(n1, n2))
         if res.exc is not None:
             r.fail(f"C04/usable/{mname(method)}/{form[0]}-{form[1]}/mobility={mob}", "every documented option combination runs on every supported grid", exception=repr(res.exc)[:300], stage=res.stage, cfg=tagc)
             continue
@@ -212,15 +215,15 @@ def run_options(case, r):
         check_run(r, res, ref, m1, m2, method, l1, form, weight, o, tagc)
         sec = res.second
         if sec is not None:
-            tag2 = dict(tagc, call="second call on the same object (reversed pair)")
+            tag2 = dict(tagc, call="second call on the same object (reversed pair, twice the mass)")
             if sec.exc is not None:
                 r.fail(f"C04/usable/{mname(method)}/{form[0]}-{form[1]}/reused-object", "a solver object can be used for a second pair", exception=repr(sec.exc)[:300], cfg=tag2)
             else:
-                check_run(r, sec, ref, m2, m1, method, l1, form, weight, o, tag2)
+                check_run(r, sec, ref, n1, n2, method, l1, form, weight, o, tag2)
                 r.count("solver_runs")
                 # ... and it must be the result a fresh solver object gives for that pair (a
                 # flux "for this pair" cannot depend on the pair computed before)
-                fresh = Wh.run_solver(mname(method), shape, vs, m2, m1, o, weight=weight)
+                fresh = Wh.run_solver(mname(method), shape, vs, n1, n2, o, weight=weight)
                 if fresh.exc is None and np.all(np.isfinite(fresh.flux)) and np.all(np.isfinite(sec.flux)):
                     tolr = 0.0 if form[1] == "direct" else 1e-9
                     sc = max(1.0, float(np.max(np.abs(fresh.flux))))
